@@ -165,3 +165,18 @@ case("C11", "mono-range-short", "VIOLATION", [(FI, "for i in range(len(logpdf) -
 case("C11", "mono-step-dropped-term", "VIOLATION", [(FI, "logpdf[i] = logaddexp2(logpdf[i], logpdf[i + 1])", "logpdf[i] = logaddexp2(logpdf[i], logpdf[i])")], "R-MONO")
 case("C11", "logadd-no-neginf-guard", "VIOLATION", [(FI, "\tif x == float(\"-inf\") and y == float(\"-inf\"):\n\t\treturn float(\"-inf\")\n", "")], "LOGADD")
 case("C11", "init-copy-spelling", "HOLDS", [(FI, "\tlogpdf[:] = old_logpdf\n", "\tlogpdf = old_logpdf.copy()\n")])
+
+# ------------------------------------------------------------------ C12
+prefix("C12", "D6-prefix-last-window", FI, "37e28d5", "R-WIN", "tools.fimo._fast_hits")
+prefix("C12", "D7-prefix-counts", FI, "c833336", "R-SIB", "tools.fimo.fimo")
+prefix("C12", "D17-prefix-float32", FI, "02b26b0", "R-DTYPE", "tools.fimo.fimo")
+case("C12", "win-plus-two", "VIOLATION", [(FI, "for i in range(end-start-n+1):", "for i in range(end-start-n+2):")], "R-WIN")
+case("C12", "win-max-guard-phantom", "VIOLATION", [(FI, "for i in range(end-start-n+1):", "for i in range(max(end-start, n)-n+1):")], "R-WIN")
+case("C12", "win-hoisted-count", "HOLDS", [(FI, "\t\t\tfor i in range(end-start-n+1):", "\t\t\tn_windows = end - start - n + 1\n\t\t\tfor i in range(n_windows):")])
+case("C12", "hit-end-off", "VIOLATION", [(FI, "hits[k].append((numpy.int64(l), i, i+n, score, ", "hits[k].append((numpy.int64(l), i, i+n-1, score, ")], "FIELDS")
+case("C12", "hit-ge-threshold", "VIOLATION", [(FI, "if score > thresh:", "if score >= thresh:")], "FIELDS")
+case("C12", "rc-single-flip", "VIOLATION", [(FI, "pwm.numpy(force=True)[::-1, ::-1]))", "pwm.numpy(force=True)[:, ::-1]))")], "STRAND")
+case("C12", "labels-exchanged", "VIOLATION", [(FI, "hits_['strand'] = ['+'] * len(hits[i]) + ['-'] * len(hits[i+n_])", "hits_['strand'] = ['-'] * len(hits[i]) + ['+'] * len(hits[i+n_])")], "R-SIB")
+case("C12", "race-shared-slot", "VIOLATION", [(FI, "\t\t\t\t\thits[k].append((numpy.int64(l), i, i+n, score, ", "\t\t\t\t\thits[0].append((numpy.int64(l), i, i+n, score, ")], "R-RACE")
+case("C12", "sentinel-default-zero", "VIOLATION", [(FI, "one_hot_mapping = numpy.zeros(256, dtype=numpy.int8) - 1", "one_hot_mapping = numpy.zeros(256, dtype=numpy.int8)")], "R-TABLE")
+case("C12", "kernel-no-skip", "VIOLATION", [(FI, "\t\t\t\t\tif idx == -1:\n\t\t\t\t\t\tcontinue\n", "")], "R-TABLE")
